@@ -89,15 +89,13 @@ mut("c03-raw-index-by-value", "C03",
 # ---- C04: liveness
 mut("c04-no-fallthrough-loop-check", "C04",
     "        # verify correctness of DFA\n        self._verify_fallthrough_loop()", "        # verify correctness of DFA\n        pass")
-mut("c04-handler-scope", "C04",
-    "            # errors raised inside the handler itself belong to the enclosing handlers, not to this one\n            self.exception_handlers = prior_error_reasons\n\n            try_node.set_handler(self._parse_stmt_seq(catch_block_stmts))",
-    "            try_node.set_handler(self._parse_stmt_seq(catch_block_stmts))\n            self.exception_handlers = prior_error_reasons")
-# ---- C12: representation options
+# (c04-handler-scope - the handler-scope defect of repair 9 re-introduced - was retired in round 11: with the out-of-space cycle
+#  search of repair 22 the programs it used to make spin are refused at compile time, so it no longer breaks C04)
 mut("c12-per-state-hook-wrong-member", "C12",
     'result.add(f"(state->{action.name}_hook)(state, {parm});")', 'result.add(f"(state->{self.hooks[0]}_hook)(state, {parm});")')
 mut("c12-dynamic-settostr-no-counter", "C12",
-    '            result.add(f"state->{action.into_storage.name}_counter = {len(action.value_expr)};")',
-    '            if not ProgramData.do(ProgramFlag.ALLOCATE_STR_SPACE_DYNAMIC): result.add(f"state->{action.into_storage.name}_counter = {len(action.value_expr)};")')
+    '            result.add(f"state->{action.into_storage.name}_counter = {self._string_constant_length(action.value_expr)};")',
+    '            if not ProgramData.do(ProgramFlag.ALLOCATE_STR_SPACE_DYNAMIC): result.add(f"state->{action.into_storage.name}_counter = {self._string_constant_length(action.value_expr)};")')
 mut("c12-u8-append-truncates", "C12",
     "                char_type = self._get_string_char_type()\n", "                char_type = self._get_string_char_type()\n                if char_type == 'uint8_t': target_expression = f'(({target_expression}) & 0x7f)'\n")
 # ---- C17: EOF
@@ -218,7 +216,7 @@ def run_one(m, tier="quick", keep=False):
             p = subprocess.run([os.path.join(VERIF, "check"), prop, "--tier", tier, "--tree", tree], capture_output=True, text=True, env=env)
             viol = [l for l in p.stdout.splitlines() if l.startswith("violation:")]
             res[prop] = {"rc": p.returncode, "wall": round(time.time() - t0, 1), "first": viol[0][:260] if viol else p.stdout.strip().splitlines()[-1][:260] if p.stdout.strip() else p.stderr[-300:]}
-            if p.returncode == 1:
+            if p.returncode == 1 and any(l.startswith("VIOLATION property=") for l in p.stdout.splitlines()):
                 res["caught_by"].append(prop)
         res["status"] = "CAUGHT" if m["prop"] in res["caught_by"] else "MISSED"
         return res
